@@ -1727,6 +1727,7 @@ impl UntypedPattern {
             PatternEnum::NumUnsigned(n, suffix) => {
                 if let Some(ty) = &ty {
                     expect_num_type(ty, meta)?;
+                    expect_pattern_in_range(ty, *n as i128, *n as i128, meta)?;
                     PatternEnum::NumUnsigned(*n, *suffix)
                 } else {
                     return Err(vec![None]);
@@ -1735,6 +1736,7 @@ impl UntypedPattern {
             PatternEnum::NumSigned(n, suffix) => {
                 if let Some(ty) = &ty {
                     expect_signed_num_type(ty, meta)?;
+                    expect_pattern_in_range(ty, *n as i128, *n as i128, meta)?;
                     PatternEnum::NumSigned(*n, *suffix)
                 } else {
                     return Err(vec![None]);
@@ -1743,6 +1745,7 @@ impl UntypedPattern {
             PatternEnum::UnsignedInclusiveRange(from, to, suffix) => {
                 if let Some(ty) = &ty {
                     expect_num_type(ty, meta)?;
+                    expect_pattern_in_range(ty, *from as i128, *to as i128, meta)?;
                     PatternEnum::UnsignedInclusiveRange(*from, *to, *suffix)
                 } else {
                     return Err(vec![None]);
@@ -1751,6 +1754,7 @@ impl UntypedPattern {
             PatternEnum::SignedInclusiveRange(from, to, suffix) => {
                 if let Some(ty) = &ty {
                     expect_signed_num_type(ty, meta)?;
+                    expect_pattern_in_range(ty, *from as i128, *to as i128, meta)?;
                     PatternEnum::SignedInclusiveRange(*from, *to, *suffix)
                 } else {
                     return Err(vec![None]);
@@ -2444,6 +2448,23 @@ fn expect_tuple_type(ty: &Type, meta: MetaInfo) -> Result<Vec<Type>, TypeErrors>
             TypeErrorEnum::ExpectedTupleType(ty.clone()),
             meta,
         ))]),
+    }
+}
+
+/// The numbers of a pattern are compared with as many bits as the matched type has, so they must
+/// be values of that type.
+fn expect_pattern_in_range(ty: &Type, from: i128, to: i128, meta: MetaInfo) -> Result<(), TypeErrors> {
+    let range = match ty {
+        Type::Unsigned(ty) => ty.max().map(|max| (0, max as i128)),
+        Type::Signed(ty) => ty.min().zip(ty.max()).map(|(min, max)| (min as i128, max as i128)),
+        _ => None,
+    };
+    match range {
+        Some((min, max)) if from < min || to > max => {
+            let e = TypeErrorEnum::PatternDoesNotMatchType(ty.clone());
+            Err(vec![Some(TypeError::new(e, meta))])
+        }
+        _ => Ok(()),
     }
 }
 
